@@ -1411,6 +1411,37 @@ fn c03(cases: &mut u64) -> Option<String> {
             }
         }
     }
+    // larger inputs (edit distances in the hundreds): minimality of the raw Myers / LCS streams and of the captured ops
+    let big: Vec<(&str, Vec<u32>, Vec<u32>)> = vec![
+        ("600 vs 600, every second item shared", (0..600u32).map(|i| if i % 2 == 0 { i } else { 10_000 + i }).collect(), (0..600u32).map(|i| if i % 2 == 0 { i } else { 20_000 + i }).collect()),
+        ("700 vs 500, period 7 against period 5", (0..700u32).map(|i| i % 7).collect(), (0..500u32).map(|i| i % 5).collect()),
+        ("400 unrelated vs 450 unrelated with a shared block of 50", (0..400u32).collect(), (1000..1200u32).chain(100..150).chain(2000..2200).collect()),
+        ("900 items, 300 scattered single-item changes", (0..900u32).collect(), (0..900u32).map(|i| if i % 3 == 1 { 50_000 + i } else { i }).collect()),
+    ];
+    for (name, o, n) in &big {
+        let l = lcs_len(o, n);
+        let want = o.len() + n.len() - 2 * l;
+        for &alg in &[Algorithm::Myers, Algorithm::Lcs] {
+            *cases += 1;
+            let ctx = format!("C03 alg={:?} '{}' N={} M={} LCS length L={}", alg, name, o.len(), n.len(), l);
+            let calls = match run_raw(alg, &o[..], 0..o.len(), &n[..], 0..n.len(), None) {
+                Ok((_, c)) => c,
+                Err(p) => return Some(format!("{}: {}", ctx, p)),
+            };
+            let (_, d, i) = tally(&calls);
+            if d + i != want {
+                return Some(format!("{}: raw callbacks delete {} + insert {} = {} items, minimum is N+M-2L = {}", ctx, d, i, d + i, want));
+            }
+            let ops = match guard(|| capture_diff_deadline(alg, &o[..], 0..o.len(), &n[..], 0..n.len(), None)) {
+                Ok(x) => x,
+                Err(p) => return Some(format!("{} capture: {}", ctx, p)),
+            };
+            let (e, d, i) = tally(&ops_calls(&ops));
+            if d + i != want || e != l {
+                return Some(format!("{}: captured ops delete {} + insert {} items (minimum {}), Equal total {} (L = {})", ctx, d, i, want, e, l));
+            }
+        }
+    }
     None
 }
 
@@ -2386,7 +2417,7 @@ fn main() {
         "C11clock" => (c07_clock(&mut cases, true), "virtual clock (cfg similar_verif, so the K1 hook is on too): alphabet {0,1,2} len 0..=5 x every deadline check k, plus 6 shapes of 120 items x sampled k: the ops of capture_diff_deadline carry exact indices on both sides (C11) under every expiry schedule"),
         "C08" => (c08(&mut cases), "alphabet {0,1,2}, len 0..=4, 6 hook stacks x 2 hook kinds x every failing call index x deadline {none, expired}"),
         "C02" => (c02(&mut cases), "alphabet {0,1,2}, len 0..=5, deadline none/expired, slices + sub-ranges + TextDiff chars; 15 text diffs of 101..260 tokens through the integer-mapping path"),
-        "C03" => (c03(&mut cases), "alphabet {0,1,2} len 0..=6 and alphabet {0,1} len 0..=8, Myers + LCS, raw + captured"),
+        "C03" => (c03(&mut cases), "alphabet {0,1,2} len 0..=6 and alphabet {0,1} len 0..=8, Myers + LCS, raw + captured; 4 pairs of 400..900 items with edit distances in the hundreds"),
         "C09" => (c09(&mut cases), "alphabet {0,1,2}, len 0..=6, deadline none/expired"),
         "C10" => (c10(&mut cases), "alphabet {0,1}, len 0..=3, all valid scripts x all carried indices x 3 adapter stacks"),
         "C11" => (c11(&mut cases), "alphabet {0,1,2}, len 0..=5, slices + embedded sub-ranges"),
